@@ -68,6 +68,12 @@ def usable(name, y0, y1):
                 theirs.append((t, off))
             prev = off
         ok = ours == theirs
+        if ok:
+            # the offset in force at the start of the window must agree as well (pytz rounds historical sub-minute
+            # offsets such as Monrovia's -0:44:30 to whole minutes; zoneinfo does not)
+            import datetime as _d
+            start = tab[0][0].replace(tzinfo=_d.timezone.utc).astimezone(tz)
+            ok = int(start.utcoffset().total_seconds()) == tab[0][1]
     except Exception:
         ok = False
     _CACHE[key] = ok
